@@ -2,6 +2,7 @@
 (* Exhaustive configurations of TestRun for TLC (leg 1).  Mode selects which dimension of the
    program space is enumerated completely:
      "life"   : every outcome in every phase (lifecycle, counting, exit value)        - C01
+     "life2"  : outcomes that differ between repetitions (exit value over all repetitions)
      "select" : registries x filters x ignore x reverse/shuffle x repeat               - C02
      "ptr"    : pointer redirections around the table limit, plugin chains             - C17 *)
 EXTENDS TestRun
@@ -13,7 +14,8 @@ B == <<"B">>
 X == <<"x">>
 XY == <<"x", "y">>
 Y == <<"y">>
-Ph(sets, e) == [sets |-> sets, ev |-> e]
+Ph(sets, e) == [sets |-> sets, ev |-> <<e>>]
+Ph2(sets, e, e2) == [sets |-> sets, ev |-> IF e = e2 THEN <<e>> ELSE <<e, e2>>]
 OkScript == [setup |-> Ph(<<>>, "ok"), body |-> Ph(<<>>, "ok"), teardown |-> Ph(<<>>, "ok")]
 F(p, s, i) == [pat |-> p, strict |-> s, invert |-> i]
 Pl(n, en, er) == [name |-> n, enabled |-> en, err |-> er]
@@ -21,12 +23,13 @@ Cfg(rp, rv, sh, ri, gf, nf, pl) == [repeat |-> rp, reverse |-> rv, shuffle |-> s
 T(gg, nn, ig) == [g |-> gg, n |-> nn, ign |-> ig]
 
 Regs ==
-    IF Mode = "life" THEN { [i \in 1..n |-> T(A, <<"t">>, FALSE)] : n \in 0..MaxTests }
+    IF Mode \in {"life", "life2"} THEN { [i \in 1..n |-> T(A, <<"t", ToString(i)>>, FALSE)] : n \in 0..MaxTests }
     ELSE IF Mode = "select" THEN
         UNION { [1..n -> { T(gg, nn, ig) : gg \in {A, AB, B}, nn \in {X, XY}, ig \in BOOLEAN }] : n \in 0..MaxTests }
-    ELSE { [i \in 1..n |-> T(A, <<"t">>, FALSE)] : n \in 1..MaxTests }
+    ELSE { [i \in 1..n |-> T(A, <<"t", ToString(i)>>, FALSE)] : n \in 1..MaxTests }
 Cfgs ==
     IF Mode = "life" THEN { Cfg(rp, FALSE, FALSE, FALSE, <<>>, <<>>, pl) : rp \in 1..2, pl \in { <<>>, <<Pl("P1", TRUE, TRUE)>> } }
+    ELSE IF Mode = "life2" THEN { Cfg(rp, FALSE, FALSE, FALSE, <<>>, <<>>, <<>>) : rp \in 2..3 }
     ELSE IF Mode = "select" THEN
         { Cfg(rp, rv, sh, ri, gf, nf, <<>>) : rp \in 1..2, rv \in BOOLEAN, sh \in BOOLEAN, ri \in BOOLEAN,
               gf \in { <<>>, <<F(A, FALSE, FALSE)>>, <<F(A, TRUE, FALSE)>>, <<F(B, FALSE, TRUE), F(A, TRUE, FALSE)>> },
@@ -36,6 +39,9 @@ Cfgs ==
 SetSeqs == UNION { [1..n -> { [loc |-> l, val |-> l + n] : l \in Locs }] : n \in 0..3 }
 Scripts ==
     IF Mode = "life" THEN { [setup |-> Ph(<<>>, e1), body |-> Ph(<<>>, e2), teardown |-> Ph(<<>>, e3)] : e1 \in Evs, e2 \in Evs, e3 \in Evs }
+    \* outcomes that differ between repetitions (a test that fails only in some repetition)
+    ELSE IF Mode = "life2" THEN { [setup |-> Ph2(<<>>, e1, e1b), body |-> Ph2(<<>>, e2, e2b), teardown |-> Ph(<<>>, "ok")] :
+                                     e1 \in Evs, e1b \in Evs, e2 \in Evs, e2b \in Evs }
     ELSE IF Mode = "select" THEN { OkScript }
     ELSE { [setup |-> Ph(s1, "ok"), body |-> Ph(s2, e2), teardown |-> Ph(<<>>, "ok")] : s1 \in SetSeqs, s2 \in SetSeqs, e2 \in {"ok", "failCpp"} }
 
